@@ -105,6 +105,41 @@ EXPECT_SIZE = {
 }
 
 
+def property_read_table(f):
+    """(visitor body, {identifier: wire type read}, {identifier: [Property variants built]}, user-property pair ok)"""
+    vis = f.bodies.get("<properties::PropertyVisitor<'a> as packets::_::_serde::de::Visitor<'de>>::visit_enum")
+    if vis is None:
+        raise AnchorLost("PropertyVisitor::visit_enum")
+    vsi = None
+    for bb in sorted(vis.switches):
+        s2 = vis.switch_info(bb)
+        if s2["enum"] == PID and len(s2["edges"]) >= 27:
+            vsi = s2
+    if vsi is None:
+        raise AnchorLost("visit_enum:match")
+    read = {}
+    built = {}
+    for idn, tgt in vsi["edges"].items():
+        others = [t for k, t in vsi["edges"].items() if k != idn]
+        arm = vis.reach([tgt]) - vis.reach(others)
+        calls = sorted([c for c in vis.calls.values() if c.bb in arm and c.is_("newtype_variant", "tuple_variant")], key=lambda c: c.bb)
+        if len(calls) == 1 and calls[0].is_("newtype_variant"):
+            read[idn] = wire_of_read(calls[0].gargs[-1])
+        elif len(calls) == 1 and calls[0].is_("tuple_variant"):
+            ln = vis.operand_term(calls[0].args[1])
+            read[idn] = "utf8pair" if ln[0] == "const" and ln[2] == 2 and "UserPropertyVisitor" in " ".join(calls[0].gargs) else "?tuple"
+        else:
+            read[idn] = "?%d calls" % len(calls)
+        aggs = [s["rv"]["agg"]["variant"] for bb in arm for s in vis.blocks[bb]["stmts"]
+                if s["k"] == "assign" and "agg" in s["rv"] and s["rv"]["agg"].get("adt") == PROP]
+        built[idn] = aggs
+    # UserPropertyVisitor reads two Utf8Strings
+    up = [b for b in f.bodies.values() if b.kind == "assoc_fn" and b.fn_name == "visit_seq" and b.self_ty and b.self_ty.startswith("properties::UserPropertyVisitor")]
+    okup = len(up) == 1 and len([c for c in up[0].calls.values() if c.bb in up[0].reachable and c.is_("next_element")
+                                 and any("Utf8String" in g for g in c.gargs)]) == 2
+    return vis, read, built, okup, vsi
+
+
 def rule_props(R):
     f = R.f
     padt = f.adts.get(PROP)
@@ -157,37 +192,8 @@ def rule_props(R):
     R.ob("props/identifier-first", okid,
          "every property is written as Varint(identifier) followed by its value", where=ser.span)
     # (3) read wire types
-    vis = f.bodies.get("<properties::PropertyVisitor<'a> as packets::_::_serde::de::Visitor<'de>>::visit_enum")
-    if vis is None:
-        raise AnchorLost("PropertyVisitor::visit_enum")
+    vis, read, built, okup, vsi = property_read_table(f)
     R.touch(vis)
-    vsi = None
-    for bb in sorted(vis.switches):
-        s2 = vis.switch_info(bb)
-        if s2["enum"] == PID and len(s2["edges"]) >= 27:
-            vsi = s2
-    if vsi is None:
-        raise AnchorLost("visit_enum:match")
-    read = {}
-    built = {}
-    for idn, tgt in vsi["edges"].items():
-        others = [t for k, t in vsi["edges"].items() if k != idn]
-        arm = vis.reach([tgt]) - vis.reach(others)
-        calls = sorted([c for c in vis.calls.values() if c.bb in arm and c.is_("newtype_variant", "tuple_variant")], key=lambda c: c.bb)
-        if len(calls) == 1 and calls[0].is_("newtype_variant"):
-            read[idn] = wire_of_read(calls[0].gargs[-1])
-        elif len(calls) == 1 and calls[0].is_("tuple_variant"):
-            ln = vis.operand_term(calls[0].args[1])
-            read[idn] = "utf8pair" if ln[0] == "const" and ln[2] == 2 and "UserPropertyVisitor" in " ".join(calls[0].gargs) else "?tuple"
-        else:
-            read[idn] = "?%d calls" % len(calls)
-        aggs = [s["rv"]["agg"]["variant"] for bb in arm for s in vis.blocks[bb]["stmts"]
-                if s["k"] == "assign" and "agg" in s["rv"] and s["rv"]["agg"].get("adt") == PROP]
-        built[idn] = aggs
-    # UserPropertyVisitor reads two Utf8Strings
-    up = [b for b in f.bodies.values() if b.kind == "assoc_fn" and b.fn_name == "visit_seq" and b.self_ty and b.self_ty.startswith("properties::UserPropertyVisitor")]
-    okup = len(up) == 1 and len([c for c in up[0].calls.values() if c.bb in up[0].reachable and c.is_("next_element")
-                                 and any("Utf8String" in g for g in c.gargs)]) == 2
     # (4) size forms
     size = f.bodies.get("properties::Property::<'_>::size")
     if size is None:
